@@ -29,6 +29,15 @@ def corpus() -> list[dict]:
     d = sig_case([("x", "a b")], [(2, 3)])
     d["params"].append({"name": "opts", "hint": None, "default": {"k": "list"}})                  # unhashable default
     c.append(d)
+    # positional-only parameters bind names that later regular parameters use (signature order, not __annotations__ order)
+    d = sig_case([("x", "a"), ("y", "a+1")], [(2,), (3,)])
+    d["params"][0]["posonly_end"] = True
+    d["positional"] = ["x"]
+    c.append(d)
+    d = sig_case([("x", "a b"), ("y", "b"), ("z", "a*b y=b")], [(2, 3), (3,), (6, 3)])
+    d["params"][1]["posonly_end"] = True
+    d["positional"] = ["x", "y"]
+    c.append(d)
     return c
 
 
@@ -42,6 +51,9 @@ def styles(rnd, case: dict) -> dict:
         c["positional"] = names[: rnd.randrange(len(names) + 1)]
     else:
         c["positional"] = []
+    # some of the positionally passed leading parameters are declared positional-only
+    if c["positional"] and rnd.random() < 0.3:
+        c["params"][rnd.randrange(len(c["positional"]))]["posonly_end"] = True
     # a trailing defaulted parameter that the caller omits (its default is checked like a passed value)
     if rnd.random() < 0.35:
         last = c["params"][-1]
